@@ -82,9 +82,11 @@ class TokenInterfaceError(errors.InterfaceError, tokenize.TokenError):
 def generated_tokens(text):
     try:
         toky = list(tokenize.generate_tokens(_compat.token_io_readline(text)))
-    except (tokenize.TokenError, IndentationError, UnicodeEncodeError) as error:
+    except (tokenize.TokenError, IndentationError, UnicodeError, SystemError) as error:
         # NOTE: Text spanning multiple lines with inconsistent indentation raises IndentationError instead of TokenError.
-        # Text the tokenizer cannot encode as UTF-8, for example a lone surrogate, raises UnicodeEncodeError.
+        # Text the tokenizer cannot encode as UTF-8, for example a lone surrogate, raises UnicodeEncodeError. A carriage
+        # return followed by a non ASCII character raises UnicodeDecodeError, and a NUL character in a continuation line
+        # even SystemError (both with Python 3.12).
         raise TokenInterfaceError("cannot split %s into tokens: %s" % (_compat.text_repr(text), error))
     if len(toky) >= 2 and is_newline_token(toky[-2]) and is_eof_token(toky[-1]):
         # HACK: Remove newline that generated_tokens() adds starting with Python 3.x but not before.
